@@ -47,7 +47,11 @@ PREFIXES = [("# Filter: ", "# Description: "), ("# rule:", "# desc:"), ("#F ", "
             ("# rule+ ", "# desc* "), ("# r.le? ", "# d{0}sc %s ")]
 NAMES = ["rule1", "Rule é", "filter #2", "x: y", "名前", "a-b_c.d", "UPPER lower",
          "n(1)", "50%", "[test]", "a,b", "Filter", "Description", "#hash first", "last hash#",
-         "\"q\"", "keep;", "if false {"]
+         "\"q\"", "keep;", "if false {",
+         # single-line text by Sieve's rules (a hash comment ends at LF only) holding what
+         # str.splitlines() / strip() / utf-8-sig treat specially
+         "a\x0bb", "f\x0cf", "x\x1cy", "n\x85l", "l\u2028s", "p\u2029s", "tab\tin", "\ufeffbom",
+         "zero\u200bwidth", "nb\u00a0sp", "cr\rin name"]
 
 
 def plan(tier, seed):
